@@ -181,6 +181,12 @@ pub struct RunnerCfg {
     /// Use `.retry_options(closure)`: closure returns `Some(n, after)` for scenarios whose
     /// name is in `closure_retry`.
     pub closure_retry: Option<BTreeMap<String, (usize, Option<u64>)>>,
+    /// `--retry-tag-filter` / `.retry_filter()`: tag expressions deciding which scenarios without a
+    /// `@retry` tag of their own get the configured retries.
+    #[serde(default, skip_serializing_if = "Option::is_none")]
+    pub cli_retry_filter: Option<String>,
+    #[serde(default, skip_serializing_if = "Option::is_none")]
+    pub builder_retry_filter: Option<String>,
 }
 
 impl RunnerCfg {
